@@ -61,6 +61,30 @@ pub trait NamingContext {
         }
     }
 
+    /// Compute the serialized name of an enum variant: serde applies the *variant* form of the
+    /// container's rename_all rule (`apply_to_variant`) and keeps the Rust name otherwise
+    fn compute_variant_name(
+        &self,
+        variant_name: &str,
+        variant_rename: &Option<String>,
+        enum_rename_all: &Option<RenameRule>,
+    ) -> String {
+        match (variant_rename, enum_rename_all) {
+            (Some(rename), _) => rename.to_string(),
+            (None, Some(RenameRule::CamelCase)) => {
+                // serde_rename_rule slices the variant name at byte 1, which panics when the
+                // first character is multi-byte
+                let mut chars = variant_name.chars();
+                match chars.next() {
+                    Some(first) => first.to_ascii_lowercase().to_string() + chars.as_str(),
+                    None => String::new(),
+                }
+            }
+            (None, Some(convention)) => convention.apply_to_variant(variant_name),
+            (None, None) => variant_name.to_string(),
+        }
+    }
+
     /// Compute the serialized name for a parameter based on serde attributes
     ///
     /// Priority:
@@ -322,8 +346,12 @@ impl FieldContext {
         let typescript_type = visitor.visit_type(&field.type_structure);
 
         // Compute serialized name from serde attributes using NamingContext trait
-        let serialized_name =
-            self.compute_field_name(&field.name, &field.serde_rename, struct_rename_all);
+        // StructParser::parse_enum marks variants with rust_type "enum_variant*"
+        let serialized_name = if field.rust_type.starts_with("enum_variant") {
+            self.compute_variant_name(&field.name, &field.serde_rename, struct_rename_all)
+        } else {
+            self.compute_field_name(&field.name, &field.serde_rename, struct_rename_all)
+        };
 
         self.name = field.name.clone();
         self.rust_type = field.rust_type.clone();
